@@ -73,13 +73,13 @@ func c18run(t *testing.T, out *verifh.Out, cells []c18cell, dir string) {
 			dcsm := map[string]*nodestate.NodeState{}
 			md := &nodestate.NodeState{PingOk: true, IsMaster: c.masterFlag}
 			if c.masterDisk >= 0 {
-				md.DiskState = &nodestate.DiskState{Used: uint64(c.masterDisk), Total: 100}
+				md.DiskState = &nodestate.DiskState{Used: uint64(c.masterDisk), Total: 1000}
 			}
 			dcsm["h1"] = md
 			for i, r := range c.repl {
 				ns := &nodestate.NodeState{PingOk: true}
 				if r.disk >= 0 {
-					ns.DiskState = &nodestate.DiskState{Used: uint64(r.disk), Total: 100}
+					ns.DiskState = &nodestate.DiskState{Used: uint64(r.disk), Total: 1000}
 				}
 				if !r.ssNil {
 					ns.SemiSyncState = &nodestate.SemiSyncState{SlaveEnabled: r.ssSlave}
@@ -119,8 +119,8 @@ func TestVerifC18(t *testing.T) {
 	defer out.Close()
 	rnd := verifh.Rand()
 	dir := t.TempDir()
-	mdisks := []int{-1, 80, 90, 91, 94, 95, 96}
-	rdisks := []int{-1, 80, 92, 97}
+	mdisks := []int{-1, 800, 900, 906, 910, 940, 949, 950, 956, 960} // permille of the disk: also strictly between two whole percents
+	rdisks := []int{-1, 800, 900, 904, 920, 950, 953, 970}
 	var cells []c18cell
 	// exhaustive reduced grid: 0..1 (thorough 0..2) replicas
 	maxR := verifh.Pick(1, 2)
